@@ -109,6 +109,29 @@ CLAIMED = {
          "For 2-Einsum micro-specs make_pmappings' tables are exported (concrete LoopTree and objective vector per row); the spec abstracts each row to the backing memory of the shared tensor and the blocks of loops above it, defines compatibility (same storage, same loops and tile shapes, a common loop order), sums objectives of every compatible pair and Pareto-filters; the resulting front must equal the front join_pmappings returns on the same tables (ENERGY|LATENCY and ENERGY).",
          "Capacity rejection and combining reservations by lifetimes are not decided here (memories large enough for every combination); only 2-Einsum joins; 3-Einsum join orders are covered through C14's exact-join comparison.", "5/C13"),
 }
+# additions made after the first build (appended to the text / replacing the note); see DESIGN.md 11.3, 11.7
+UPDATES = {
+ "C03": (" Spatial micro-specs: one Container fanout with one loop_bounds constraint, and two fanout levels on memories that bound the same rank variable; clauses fanout (product of spatial iterations <= fanout) and bounds (comparison holds on the iteration count of the named rank variables, an absent loop counting as 1).",
+         "Fused-loop limits are not exercised (single Einsum). Constraint forms on which the unchanged mapper crashes (per-variable >=, >, <, ==/<= with value > 1 on a Container fanout) are excluded from the generator; spatial loops are executed like temporal loops (their access counts are not modelled)."),
+ "C04": (" Rows of the two runs are the same mappings in the same order and are paired by index.", None),
+ "C06": (" Persistent holders and n_instances are constructed by MC_LoopNest. Fused trees: FusedNest.tla (one split) and FusedTree.tla (nested splits) state the occupancy of a multi-Einsum tree (per-Einsum views, tile liveness from first to last use); every tree the mapper returns on 2- and 3-Einsum chains with RESOURCE_USAGE as objective must report usage*size = PeakF / PeakT exactly.",
+         "The fused occupancy rule was calibrated on five hand-built fused mappings and is bound on mapper results only (no TLC generator of fused trees yet). Where the streaming and element readings differ the comparison with the footprint is recorded, not decisive."),
+ "C07": (" History part: a twin spec that differs from the original in the 6th significant digit of one energy is mapped right after the original in the same process (lambdify and symbol caches are process-wide); the twin's recorded formulas must agree with the real model up to float32 rounding (2^-21 relative).", None),
+ "C08": (" All four metric sets in both tiers; worlds with a cheap, slow, leaky GLB under an expensive fast DRAM make leak energy decide tile shapes.", None),
+ "C12": (" Families with values whose ratios (differences) lie just above 1+t (the absolute slack) keep the rounding classes observable.", None),
+ "C13": (" Capacity part: pairs that exceed capacity in the merged tree (FusedNest.Merged + PeakF) are dropped before the front (max_fused_loops = 1, tight GLB; vacuity guard). General part: any number of fused loops, ENERGY|LATENCY|RESOURCE_USAGE, FusedNest.MergedG finds a common loop order, merges the two concrete trees and takes PeakF as capacity filter and as third front coordinate.",
+         "2-Einsum chains; 3-Einsum join orders are compared with the exact join only (C14). Trusted: the exporter pmapping row -> concrete LoopTree."),
+ "C14": (" The pmappings of the exact side are regenerated with every memory tracked (can_combine_multiple_runs=True), so accelerations inside make_pmappings are on the accelerated side only; one chain has a big first and a tiny last Einsum.", None),
+ "C15": (" Big tables: MC_Compress!BigShapes (Einsums with more than 2^16 rows, selections on the 16-bit boundaries); (sub-table, row) from RowOfA, tied to the definition RowOf by LocateLemma in the exhaustive configs.", None),
+ "C16": (" Bucket part: ToleranceBuckets.tla states the contract of the classing every tolerant step uses (monotone, classes span at most 1+t), model-checks that it keeps the near-optimum (and that wider classes do not), and validates the classing recorded from logscale_to_tolerance for x = 1..1500 (6000), three scales, four tolerances.", None),
+ "C17": (" Besides micro-specs: memory-bound 3-level 8x8x8-class matmuls and 2-level trade-off worlds (long m, expensive DRAM, slow GLB with non-power-of-two throughput) whose fronts have several close points; values are rank-transformed per trace where 32-bit products would overflow (SetMetrics compares for equality only).", None),
+ "C18": (" Keep-chain worlds (DRAM -> GLB -> RF, RF keeps everything, GLB's keep set shrinks tensor by tensor) exercise the storage-order pruning rules.", None),
+ "C19": (" n_instances is scaled at the workload level, at the Einsum level and at both together (the counts multiply).", None),
+}
+for k, (more, note) in UPDATES.items():
+    t, text, old_note, ref = CLAIMED[k]
+    CLAIMED[k] = (t, text + more, note if note is not None else old_note, ref)
+
 NOT_YET = "check not built yet in this round; see DESIGN.md section 5 for the planned TLA+ module"
 
 checks = []
